@@ -188,7 +188,7 @@ HandleBlock ==
     /\ ntfB' = Tail(ntfB)
     \* any block step that commits repairs what an earlier failed one left undone
     /\ faulted' = IF Head(ntfB) \in Range(wchain) \/ OnBest(Head(ntfB)) THEN FALSE ELSE faulted
-    /\ UNCHANGED <<parent, content, best, pool, ntfT, memp, up, status, tasks>>
+    /\ UNCHANGED <<reorg, parent, content, best, pool, ntfT, memp, up, status, tasks>>
 
 HandleTx ==
     /\ up
@@ -199,7 +199,7 @@ HandleTx ==
             /\ memp' = memp \cup {t}
        ELSE UNCHANGED <<pend, memp>>
     /\ ntfT' = Tail(ntfT)
-    /\ UNCHANGED <<parent, content, best, pool, ntfB, wchain, wmem, up, status, cursor, tasks, faulted>>
+    /\ UNCHANGED <<reorg, parent, content, best, pool, ntfB, wchain, wmem, up, status, cursor, tasks, faulted>>
 
 (***************************************************************************)
 (* Crash and restart (C06).  The wallet is part of the node process: a     *)
@@ -253,6 +253,7 @@ Crash ==
     /\ up' = FALSE
     /\ ntfB' = <<>> /\ ntfT' = <<>> /\ pool' = {}
     /\ memp' = {} /\ wmem' = 0 /\ tasks' = <<>> /\ faulted' = FALSE
+    /\ reorg' = 0        \* a reorganisation in progress dies with the process; the chain database stays where it was
     /\ UNCHANGED <<parent, content, best, wchain, pend, status, cursor>>
 
 Restart ==
@@ -264,7 +265,7 @@ Restart ==
     /\ up' = TRUE
     \* the worker re-queues unfinished background work from the persisted wallet status
     /\ tasks' \in Perms(TaskSet)     \* in the order GetAllWalletStatus yields them
-    /\ UNCHANGED <<parent, content, best, pool, ntfB, ntfT, memp, status, faulted>>
+    /\ UNCHANGED <<reorg, parent, content, best, pool, ntfB, ntfT, memp, status, faulted>>
 
 RestartCrash(k) ==
     /\ ~up
@@ -272,7 +273,7 @@ RestartCrash(k) ==
     /\ LET r == CatchUp(wchain, pend, k)
        IN /\ wchain' = r[1] /\ pend' = r[2]
           /\ cursor' = CursorAfter(wchain, r[1])
-    /\ UNCHANGED <<parent, content, best, pool, ntfB, ntfT, memp, wmem, up, status, tasks, faulted>>
+    /\ UNCHANGED <<reorg, parent, content, best, pool, ntfB, ntfT, memp, wmem, up, status, tasks, faulted>>
 
 (***************************************************************************)
 (* Wallet life cycle (C07, C08): background import and removal.            *)
@@ -354,12 +355,12 @@ HandleBlockFault ==
     /\ up /\ ntfB # <<>>
     /\ ntfB' = Tail(ntfB)
     /\ faulted' = TRUE
-    /\ UNCHANGED <<parent, content, best, pool, ntfT, wchain, pend, wmem, memp, up, status, cursor, tasks>>
+    /\ UNCHANGED <<reorg, parent, content, best, pool, ntfT, wchain, pend, wmem, memp, up, status, cursor, tasks>>
 
 HandleTxFault ==
     /\ up /\ ntfT # <<>>
     /\ ntfT' = Tail(ntfT)
-    /\ UNCHANGED <<parent, content, best, pool, ntfB, wchain, pend, wmem, memp, up, status, cursor, tasks, faulted>>
+    /\ UNCHANGED <<reorg, parent, content, best, pool, ntfB, wchain, pend, wmem, memp, up, status, cursor, tasks, faulted>>
 
 WorkerStepFault ==
     /\ up /\ tasks # <<>>
@@ -369,7 +370,7 @@ WorkerStepFault ==
 (***************************************************************************)
 (* Properties                                                              *)
 (***************************************************************************)
-Quiescent == up /\ ntfB = <<>> /\ ntfT = <<>> /\ tasks = <<>> /\ ~faulted
+Quiescent == up /\ ntfB = <<>> /\ ntfT = <<>> /\ tasks = <<>> /\ ~faulted /\ reorg = 0
 
 \* C01 (sync part): once every notification is processed the wallet is on the best chain
 \* C06: ... also after any number of crashes and restarts
